@@ -1,6 +1,8 @@
 package conf
 
 import (
+	"strconv"
+
 	"code.cloudfoundry.org/bytefmt"
 
 	"github.com/bluenviron/mediamtx/internal/conf/jsonwrapper"
@@ -11,7 +13,14 @@ type StringSize uint64
 
 // MarshalJSON implements json.Marshaler.
 func (s StringSize) MarshalJSON() ([]byte, error) {
-	return []byte(`"` + bytefmt.ByteSize(uint64(s)) + `"`), nil
+	str := bytefmt.ByteSize(uint64(s))
+
+	// bytefmt.ByteSize keeps a single decimal: fall back to plain bytes when this is lossy
+	if back, err := bytefmt.ToBytes(str); err != nil || back != uint64(s) {
+		str = strconv.FormatUint(uint64(s), 10) + "B"
+	}
+
+	return []byte(`"` + str + `"`), nil
 }
 
 // UnmarshalJSON implements json.Unmarshaler.
